@@ -21,6 +21,7 @@ TAGSETS = [None, (1, 2, 3), (2, 3, 1), (3, 1, 2), (7, 3, None)]
 
 
 RULE = RULE + ' Two sources are also given with one in each addressing form, both orders.'
+RULE = RULE + ' A 50 Ohm load attached to one pulse in both addressing forms is compared with a 100 Ohm load.'
 
 
 def bounds(tier, seed):
